@@ -98,7 +98,7 @@ func createHtpasswdMap(records [][]string) (*htpasswdMap, error) {
 		switch {
 		case lr == 2:
 			user, realPassword := record[0], record[1]
-			invalidEntries = passShaOrBcrypt(h, user, realPassword)
+			invalidEntries = append(invalidEntries, passShaOrBcrypt(h, user, realPassword)...)
 		case lr == 1, lr > 2:
 			invalidRecords = append(invalidRecords, record[0])
 		}
